@@ -22,7 +22,7 @@ PLANS = {
     "C07": {"quick": std(1500, 5000, 1500), "thorough": std(15000, 80000, 15000, cap=900)},
     "C08": {"quick": std(40000, 150000), "thorough": std(400000, 2000000, cap=900)},
     "C09": {"quick": std(40000, 150000), "thorough": std(400000, 2000000, cap=900)},
-    "C10": {"quick": std(600, 2500), "thorough": std(6000, 30000, cap=900)},
+    "C10": {"quick": std(250, 1200), "thorough": std(4000, 24000, cap=1200)},
     "C11": {"quick": std(30000, 120000), "thorough": std(300000, 1500000, cap=900)},
     "C12": {"quick": std(40000, 150000), "thorough": std(400000, 2000000, cap=900)},
     "C13": {"quick": std(40000, 150000), "thorough": std(400000, 2000000, cap=900)},
